@@ -132,9 +132,11 @@ def execRaw (q : Quirks) (c : Conn) (now : Nat) (obs : Option (List Bytes)) (raw
 
 /-- One thing that happened on the server, in execution order. -/
 inductive Ev where
-  /-- a command reaching `process_normal_command` from the observed connection: sent directly (`viaExec = false`) or
-      executed by EXEC (`viaExec = true`; same route, except that EXEC passes connection id 0, so a SELECT inside a
-      transaction selects nothing).  `EVAL <wrapper> 0 inner…` is the script path. -/
+  /-- a command of the observed connection that is executed: sent directly (`viaExec = false`) or executed by EXEC
+      (`viaExec = true`).  Both reach `process_normal_command` (EXEC through `process_command_parts`), with one exception:
+      EXEC runs a queued SELECT through `handle_select` directly, so it changes the connection's database like a
+      direct SELECT but can never be appended — which coincides with the table rule as long as SELECT is not in the
+      table (`Cfg.wf`).  The flag is informational.  `EVAL <wrapper> 0 inner…` is the script path. -/
   | cmd (viaExec : Bool) (now : Nat) (obs : Option (List Bytes)) (raw : List Bytes)
   /-- the pop (`storage.lpop/rpop(db, key)`) performed on behalf of a BLPOP/BRPOP client: by `wake_client` when a blocked
       client is served, or at once by `handle_blpop`/`handle_brpop` on a non-empty list (the BLPOP command itself, which
@@ -143,8 +145,7 @@ inductive Ev where
   deriving Repr, DecidableEq
 
 def execEv (q : Quirks) (c : Conn) : Ev → Conn
-  | .cmd viaExec now obs raw =>
-    if viaExec ∧ nameOf raw = "SELECT" then c else execRaw q c now obs raw
+  | .cmd _ now obs raw => execRaw q c now obs raw
   | .wake db now left key => { c with store := (KS.step q c.store db now (popCmd left key) none).1 }
 
 /-- the live server after a history -/
@@ -188,9 +189,9 @@ def fileAfter (cfg : Cfg) (st : LogSt) (d : Nat) : Nat := if cfg.logSelect then 
 
 /-- entries appended by one event, and the tracking state afterwards -/
 def logEv (cfg : Cfg) (st : LogSt) : Ev → List (List Bytes) × LogSt
-  | .cmd viaExec _ _ raw =>
+  | .cmd _ _ _ raw =>
     let name := nameOf raw
-    let conn' := if name = "SELECT" ∧ ¬ viaExec then selTarget st.conn raw else st.conn
+    let conn' := if name = "SELECT" then selTarget st.conn raw else st.conn
     if isWrite cfg.writes name then
       -- appended verbatim, before dispatch, whatever the outcome will be
       let file1 := fileAfter cfg st st.conn
@@ -267,7 +268,10 @@ def outsideReads : List String :=
   ["VERIF", "PING", "ECHO", "SELECT", "SLEEP", "CONFIG", "ZSCORE", "ZCARD", "ZRANK", "ZREVRANK", "ZRANGE", "ZREVRANGE",
    "ZRANGEBYSCORE", "ZREVRANGEBYSCORE", "ZCOUNT", "XRANGE", "XREVRANGE", "XLEN", "XREAD", "XPENDING", "XINFO",
    "SAVE", "BGSAVE", "LASTSAVE", "SCAN", "HSCAN", "SSCAN", "ZSCAN", "BGREWRITEAOF", "INFO", "SLOWLOG", "MEMORY",
-   "CLIENT", "AUTH", "REPLICAOF", "SLAVEOF", "SYNC", "PSYNC", "QUIT", "COMMAND", "SHUTDOWN", "SCRIPT"]
+   "CLIENT", "AUTH", "REPLICAOF", "SLAVEOF", "SYNC", "PSYNC", "QUIT", "COMMAND", "SHUTDOWN", "SCRIPT",
+   -- connection / transaction / pub-sub state, wherever the tree dispatches them
+   "PUBLISH", "SUBSCRIBE", "UNSUBSCRIBE", "PSUBSCRIBE", "PUNSUBSCRIBE", "MONITOR", "REPLCONF",
+   "MULTI", "EXEC", "DISCARD", "WATCH", "UNWATCH"]
 
 /-- Mutating commands that the current table does not contain (known finding; `[]` after the proposed fix). -/
 def notLogged : List String := ["GETSET", "PEXPIRE", "HMSET"]
